@@ -870,6 +870,7 @@ class Extract:
     entry: list = field(default_factory=list)      # proof/ghost text inserted at function entry
     exit_: list = field(default_factory=list)      # proof text appended at the end of a ()-returning body
     indexcalls: list = field(default_factory=list)  # R7: `recv[expr]` (read position) -> `recv.method(expr)`
+    locals_: list = field(default_factory=list)    # (alias, "stmt pattern with $", nth): the alias used in hints names the binder at `$`
     methodrenames: list = field(default_factory=list)  # R7: every `.old(` method call -> `.new(` (a wrapper trait method with the std contract)
     fallback: list = field(default_factory=list)   # text emitted instead when the item no longer exists
     tmpl_line: int = 0
@@ -971,6 +972,9 @@ def parse_template(text):
         mm = re.match(r'^indexcall\s+"((?:[^"\\]|\\.)*)"\s*=>\s*"(\w+)"\s*$', body)
         if mm:
             cur.indexcalls.append((_unesc(mm.group(1)), mm.group(2))); i += 1; continue
+        mm = re.match(r'^local\s+(\w+)\s*:\s*"((?:[^"\\]|\\.)*)"\s*(?:#(\d+))?\s*$', body)
+        if mm:
+            cur.locals_.append((mm.group(1), _unesc(mm.group(2)), int(mm.group(3) or 1))); i += 1; continue
         mm = re.match(r'^methodrename\s+"(\w+)"\s*=>\s*"(\w+)"\s*$', body)
         if mm:
             cur.methodrenames.append((mm.group(1), mm.group(2))); i += 1; continue
@@ -1183,6 +1187,23 @@ def build(template_text: str, repo: str, unit: str) -> Built:
     template_text = expand_imports(expand_includes(template_text))
     ASSERT_KW[0] = "assert!" if "#[cfg(kani)]" in template_text else "assert"
     parts = parse_template(template_text)
+    def _mark_hint(text):
+        out_l = []
+        for ln in text.split("\n"):
+            if "/*@hint*/" in ln or not ln.strip():
+                out_l.append(ln); continue
+            k = ln.rfind("// @")
+            out_l.append(ln[:k] + "/*@hint*/ " + ln[k:] if k >= 0 else ln + " /*@hint*/")
+        return "\n".join(out_l)
+    for part in parts:
+        if part[0] == "text":
+            continue
+        exx = part[1]
+        for ins in exx.inserts + exx.entry + exx.exit_:
+            ins[3] = _mark_hint(ins[3])
+        for c in exx.clauses:
+            if c.kind in ("loopentry", "looppre", "loophead", "looptail", "loopreturns", "loopafter"):
+                c.text = _mark_hint(c.text)
     mb = re.search(r"^//! broadcast_use:\s*(.+)$", template_text, re.M)
     if mb:
         # unit-wide `broadcast use` (e.g. the drop-resolution axioms of the container doubles): appended to the entry
@@ -1412,6 +1433,29 @@ def _build_fn(sf: SourceFile, item: Item, impl, ex: Extract, props, rep, unit, a
     if "R1c" in rules:
         body_toks = rw_R1c_format(body_toks, rep)
     body_toks = rw_R8_closure_underscore(body_toks, rep)   # R8 / R8b: always (pure renaming)
+    # local aliases: a hint names a local of the function; if the local was renamed, the hints follow
+    for (alias, patt, nth) in ex.locals_:
+        pt = pat_tokens(patt)
+        if "$" not in pt:
+            raise TemplateError(f"{qual}: local {alias}: pattern has no `$`")
+        hole = pt.index("$")
+        sigs = [q for q, t in enumerate(body_toks) if t.kind not in (WS, COMMENT, "raw")]
+        found = []
+        for a0 in range(0, len(sigs) - len(pt) + 1):
+            if all(b == hole or body_toks[sigs[a0 + b]].text == pt[b] for b in range(len(pt))) and body_toks[sigs[a0 + hole]].kind == IDENT:
+                found.append(body_toks[sigs[a0 + hole]].text)
+        if len(found) >= nth and found[nth - 1] != alias:
+            actual = found[nth - 1]
+            rx = re.compile(r"\b" + re.escape(alias) + r"\b")
+            for c in ex.clauses:
+                c.text = rx.sub(actual, c.text)
+            for ins in ex.inserts + ex.entry + ex.exit_:
+                ins[3] = rx.sub(actual, ins[3])
+            for cl3 in ex.closures:
+                cl3[2].text = rx.sub(actual, cl3[2].text)
+            rep.append(("hint", f"local `{alias}` is now called `{actual}`: hints renamed accordingly"))
+        elif len(found) < nth:
+            rep.append(("LOST", f"local {alias}: binder pattern {patt!r} #{nth} not found"))
     if "R7a" in rules:
         body_toks = rw_R7_try_into_expect(body_toks, rep)
 
